@@ -597,4 +597,10 @@ def analyse_interpolate(facts, fn_def):
     if sx.st is None:
         raise AnalysisError("%s: no normal exit" % fn_def)
     out = sx.st[yk]
+    # early returns: (path condition, value of yi[0] at the return); the fall-through value alone is not the whole function
+    sx.early_returns = []
+    for ev in sx.trace:
+        if ev.get("kind") == "return" and isinstance(ev.get("state"), dict):
+            o2 = ev["state"].get(yk)
+            sx.early_returns.append((ev.get("pc") or [], o2.get(0) if isinstance(o2, Buf) else None, ev.get("node")))
     return out.get(0) if isinstance(out, Buf) else None, sx
